@@ -241,6 +241,26 @@ def _bits(kyupy, lg, res, task):
     p = lg.packbits(u, dt)
     if p.shape != vals.shape or p.dtype != dt or not np.array_equal(p, vals):
         res.violation(f'C15/bits/{dt}/roundtrip', {'task': list(task)}, 'packbits(unpackbits(a), dtype) != a')
+    # every length of the last axis from 1 to width+3: longer inputs are truncated, shorter ones padded with 0 (unsigned) or with the
+    # most significant supplied bit (signed); expected values by plain integer arithmetic
+    pats = [0, 1, 0b10, 0xA5, 0x80, 0xFF, 0x7F, 0x100, 0x8000, 0xFFFF, 0x5A5A5A, 0x800000, 0xFFFFFF, (1 << 31), (1 << 31) - 1, (1 << 40) + 5, (1 << 55), (1 << 63) + 3, (1 << 64) - 1, (1 << 66) - 1]
+    for L in range(1, bits + 4):
+        rows = np.array([[(p >> i) & 1 for i in range(L)] for p in pats], dtype=np.uint8)
+        got = lg.packbits(rows, dt)
+        exp = []
+        for p in pats:
+            v = p & ((1 << min(L, bits)) - 1)
+            if L < bits and dt.kind == 'i' and (p >> (L - 1)) & 1: v |= ((1 << bits) - 1) ^ ((1 << L) - 1)     # sign extension from the last supplied bit
+            if dt.kind == 'i' and v >= (1 << (bits - 1)): v -= (1 << bits)
+            exp.append(v)
+        res.evals += len(pats)
+        if got.shape != (len(pats),) or got.dtype != dt or [int(x) for x in got] != exp:
+            bad = next((i for i in range(len(pats)) if got.shape == (len(pats),) and int(got[i]) != exp[i]), 0)
+            res.violation(f'C15/bits/{dt}/length{L}', {'task': list(task)}, f'packbits of {L} bits {rows[bad].tolist()} into {dt}: got {got[bad] if got.shape == (len(pats),) else got.shape} expected {exp[bad]}')
+        gb = lg.packbits(rows.astype(bool), dt)
+        if [int(x) for x in np.asarray(gb).reshape(-1)] != exp:
+            res.violation(f'C15/bits/{dt}/length{L}-bool', {'task': list(task)}, f'packbits of a boolean array with {L} bits into {dt} differs')
+        res.count('packbits_lengths')
     # shape preservation on 2-D / 3-D views of the same data
     m = (len(vals) // 6) * 6
     for sh in [(m // 2, 2), (m // 6, 3, 2)]:
